@@ -1,6 +1,8 @@
 package props
 
 import (
+	"go/token"
+	"go/types"
 	"fmt"
 	"strings"
 
@@ -251,6 +253,7 @@ func runC20(c *an.Ctx) {
 		}
 	}
 	c.MinCount("R3", "error-returning calls in the file-system call graph", nCalls, 25)
+	c20ExactTolerance(c)
 	// reader returns the ReadAt error unchanged
 	if rd := c.FnOpt("internal/corazawaf.(*bodyBufferReader).Read"); rd != nil && c.P.Cfg.Name != "no_fs_access" && c.P.Cfg.Name != "tinygo" {
 		var readAt ssa.Value
@@ -416,4 +419,60 @@ func c20BodyFailure(c *an.Ctx) {
 		})
 		c.Check(ok, "R4", "ProcessLogging logs an audit write failure", pl.Pos(), "Error().Err(err) on the failure branch", "a failing audit log write is not reported to the error log")
 	}
+}
+
+// c20ExactTolerance: a body processor may tolerate specific failures (a truncated document), and only those.
+// A tolerated error is therefore recognised exactly — errors.Is against a sentinel, or equality of its message
+// with a constant — never by a prefix/substring test over the message, which also swallows unrelated syntax
+// errors ("unexpected end element") and with them the rest of the body.
+func c20ExactTolerance(c *an.Ctx) {
+	errIface := types.Universe.Lookup("error").Type().Underlying().(*types.Interface)
+	isErrish := func(t types.Type) bool {
+		return types.Implements(t, errIface) || types.Implements(types.NewPointer(t), errIface)
+	}
+	fromError := func(v ssa.Value) bool {
+		for d := range an.Deps(v) {
+			if d == v {
+				continue
+			}
+			if isErrish(d.Type()) {
+				return true
+			}
+			if p, ok := d.Type().Underlying().(*types.Pointer); ok && isErrish(p.Elem()) {
+				return true
+			}
+		}
+		return false
+	}
+	nExact, nLoose := 0, 0
+	for _, fn := range c.P.ModFuncs {
+		if rp := relPkg(fn); rp != "internal/bodyprocessors" && rp != "internal/corazawaf" {
+			continue
+		}
+		an.Instrs(fn, func(in ssa.Instruction) {
+			switch x := in.(type) {
+			case *ssa.BinOp:
+				if (x.Op == token.EQL || x.Op == token.NEQ) && isStringType(x.X.Type()) {
+					if _, isC := x.Y.(*ssa.Const); isC && fromError(x.X) {
+						nExact++
+						c.FuncsAnalysed[fn] = true
+						c.Ok("R3", fmt.Sprintf("tolerated error recognised by its exact message in %s", an.RelName(fn)), in.Pos(), tempName.ReplaceAllString(an.Expr(x), ""))
+					}
+				}
+			case *ssa.Call:
+				callee := x.Call.StaticCallee()
+				if callee == nil || callee.Pkg == nil || callee.Pkg.Pkg.Path() != "strings" || len(x.Call.Args) < 1 {
+					return
+				}
+				switch callee.Name() {
+				case "HasPrefix", "HasSuffix", "Contains", "Index", "ContainsAny":
+					if fromError(x.Call.Args[0]) {
+						nLoose++
+						c.Bad("R3", fmt.Sprintf("error message matched loosely (strings.%s) in %s", callee.Name(), an.RelName(fn)), in.Pos(), "an error is classified by strings."+callee.Name()+" over its message ("+tempName.ReplaceAllString(an.Expr(x), "")+"): every failure whose text happens to match is treated like the tolerated one, so a malformed body is accepted as fully inspected and the data after the fault is silently dropped")
+					}
+				}
+			}
+		})
+	}
+	c.MinCount("R3", "errors recognised by exact message", nExact, 1)
 }
